@@ -3,7 +3,7 @@ from __future__ import annotations
 
 import asyncio
 
-from .. import cli, env, workload
+from .. import cli, env, kernel, workload
 from ..harness import World, execute, place_summary, probe, violation
 
 LEVEL = "exploration"
@@ -60,6 +60,7 @@ def gen(rng, broker, tier):
     return {
         "mode": "worker", "M": M, "tasks_limit": rng.choice([1, 2, 3, M, M + 1, 50, 1000]),
         "nq": nq, "jobs": jobs, "graceful_s": rng.choice([60.0, 60.0, 0.2, 0.02]),
+        "second_worker": rng.random() < 0.15,
         "late_arrival": rng.choice([None, {"q": rng.randrange(3), "k": rng.randint(0, 40)},
                                     {"q": rng.randrange(3), "mode": "before-end", "lead_us": rng.choice([500, 100, 1500, 10])}]),
         "knobs": {"step_cost": rng.choice([0, 0, 1, "rand"])},
@@ -75,7 +76,7 @@ def shrink_fixup(sc):
 async def _main_worker(sim, sc, out):
     r = env.repid
     broker = sc["broker"]
-    world = await World(sim, broker, nodes=("w",)).setup()
+    world = await World(sim, broker, nodes=("w", "w2") if sc.get("second_worker") else ("w",)).setup()
     conn = world.conn("w")
     jobs = {j["id"]: j for j in sc["jobs"]}
     state = workload.ActorState(world, jobs)
@@ -132,6 +133,22 @@ async def _main_worker(sim, sc, out):
     state.on_end = on_end
     t0 = sim.clock.us
     wt = sim.loop.spawn("w", w.run())
+    wt2 = None
+    if sc.get("second_worker"):
+        # another worker without a limit serves the same queues: what the limited worker leaves behind (and gives back
+        # when it stops) is executed there - every job exactly once overall
+        w2 = r.Worker(routers=[router], tasks_limit=2, graceful_shutdown_time=5.0, _connection=world.conn("w2"))
+        wt2 = sim.loop.spawn("w2", w2.run())
+    if wt2 is not None:
+        # (the limited worker may never reach its limit when the other one takes the messages: both are stopped once
+        # everything has been executed)
+        for _ in range(240):
+            await asyncio.sleep(0.25)
+            if wt.done() or all(any(e[2] == jid and e[4] != "cancelled" for e in state.ends) or j.get("ttl_s")
+                                for jid, j in jobs.items()):
+                break
+        if not wt.done():
+            sim.loop.deliver_signal("w", __import__("signal").SIGINT)
     try:
         await asyncio.wait_for(asyncio.shield(wt), timeout=600)
         returned = True
@@ -141,6 +158,38 @@ async def _main_worker(sim, sc, out):
         out["violations"].append(violation("run-raised", f"C10/{broker}/run-raised/{type(exc).__name__}", exc=repr(exc)))
         return
     t_ret = sim.clock.us
+    if wt2 is not None:
+        import signal as _signal
+
+        starts_w = len([s_ for s_ in state.starts if s_[4] == "w"])
+        # let the other worker drain the queues, then stop it
+        for _ in range(400):
+            await asyncio.sleep(0.25)
+            if all(any(e[2] == jid and e[4] != "cancelled" for e in state.ends) or j.get("ttl_s") for jid, j in jobs.items()):
+                break
+        sim.loop.deliver_signal("w2", _signal.SIGINT)
+        try:
+            await asyncio.wait_for(asyncio.shield(wt2), timeout=60)
+        except BaseException as exc:  # noqa: BLE001
+            if isinstance(exc, (kernel.SimAbort, KeyboardInterrupt, SystemExit)):
+                raise
+        await prod
+        await asyncio.sleep(0.3)
+        out["nontrivial"] = True
+        out["states"].append(f"two-M{M}-s{min(starts_w, 9)}")
+        if starts_w > M:
+            out["violations"].append(violation("overshoot", f"C10/{broker}/overshoot", M=M, starts=starts_w, second_worker=True))
+        for jid, j in jobs.items():
+            n_ok = len([e for e in state.ends if e[2] == jid and e[4] in ("return", "raise")])
+            if n_ok > 1:
+                out["violations"].append(violation("executed-twice", f"C10/{broker}/two-workers/job-executed-{min(n_ok, 3)}-times",
+                                                   id=jid, M=M))
+                break
+            if n_ok == 0 and not j.get("ttl_s"):
+                out["violations"].append(violation("never-executed", f"C10/{broker}/two-workers/job-never-executed/"
+                                                   f"{place_summary(world.inspect(), jid)}", id=jid, M=M))
+                break
+        return
     starts_in_run = len(state.starts)
     ends_in_run = len([e for e in state.ends if e[4] != "cancelled"])
     await prod
